@@ -24,7 +24,13 @@ def judge_batch(cases):
      {'impl': {pred: ...}, 'codes': {pred: code}, 'status': int}."""
   items = []
   metas = []
-  impl = R.run_impl_many([(text, prog, preds) for prog, text, preds in cases])
+  jobs = []
+  for prog, text, preds in cases:
+    if isinstance(text, tuple):
+      jobs.append((text[0], prog, preds, text[1]))
+    else:
+      jobs.append((text, prog, preds))
+  impl = R.run_impl_many(jobs)
   for (prog, text, preds), res in zip(cases, impl):
     skipped = res.get('__skipped__')
     if not skipped and any(v[0] == 'big' for v in res.values()):
@@ -139,8 +145,29 @@ def describe(prog):
   return feats
 
 
+def outcome(prog, j, pred):
+  """Canonical outcome of one predicate in one run: ('ok', sorted rows) | (class,) | None."""
+  res = j['impl'].get(pred)
+  if res is None or res[0] == 'big':
+    return None
+  if res[0] != 'ok':
+    return (res[0],)
+  d = [x for x in prog if x['name'] == pred][0]
+  rows = []
+  for row in res[2]:
+    cells = []
+    for h, v in zip(res[1], row):
+      import re as _re
+      f = int(h[3:]) if _re.fullmatch(r'col\d+', h) else h
+      if f in d['bagcols'] and isinstance(v, list):
+        v = sorted(v, key=lambda x: (x is None, str(type(x)), x))
+      cells.append(v)
+    rows.append(common.canon(cells))
+  return ('ok', tuple(res[1]), tuple(sorted(rows)))
+
+
 def run_core(rep, pid, tier, profile, variants, n_quick, n_thorough, salt, replay=None, ok=True, info=None,
-             accept=None):
+             accept=None, metamorphic=False):
   """variants: list of (name, fn(prog, rng) -> (text, prog_for_types) or None).
   accept(prog) -> bool filters generated programs (e.g. must contain aggregation)."""
   n = n_quick if tier == 'quick' else n_thorough
@@ -178,7 +205,39 @@ def run_core(rep, pid, tier, profile, variants, n_quick, n_thorough, salt, repla
   rejected_by_model = 0
   skipped_cases = []
   found = []
+  baseline = {}
+  if metamorphic:
+    for (s, vname, prog, text), j in zip(cases, results):
+      if vname == 'plain' and not j.get('skipped'):
+        baseline[s] = j
   for (s, vname, prog, text), j in zip(cases, results):
+    if metamorphic:
+      # the property is an invariance of the implementation: report only where the variant's outcome
+      # differs from the plain program's outcome (a deviation shared by both belongs to C01/C02)
+      if vname == 'plain' or j.get('skipped') or s not in baseline or j['status'] != 0:
+        if j.get('skipped'):
+          skipped_cases.append({'gen_seed': s, 'variant': vname, 'why': j['skipped']})
+        continue
+      b = baseline[s]
+      for d in prog:
+        if d['kind'] != 'table' or d.get('ext'):
+          continue
+        o1, o2 = outcome(prog, b, d['name']), outcome(prog, j, d['name'])
+        if o1 is None or o2 is None:
+          continue
+        evaluated += 1
+        if o2[0] == 'ok' and o2[2]:
+          nonempty += 1
+        if o1 != o2:
+          right = 'variant' if (o2[0] == 'ok' and j['codes'].get(d['name']) == 0) else (
+              'plain' if (o1[0] == 'ok' and b['codes'].get(d['name']) == 0) else 'neither')
+          kind = 'variant-changes-outcome'
+          detail = '%s vs %s (agrees with the reference evaluator: %s)' % (
+              o1[0] if o1[0] != 'ok' else 'ok', o2[0] if o2[0] != 'ok' else 'ok', right)
+          bad = j if o2[0] != 'ok' or right == 'plain' else b
+          found.append((s, vname, prog, text, d['name'], kind,
+                        detail + ' | ' + str((bad['impl'].get(d['name']) or ['', ''])[1])[:200], j))
+      continue
     if j.get('skipped'):
       skipped_cases.append({'gen_seed': s, 'variant': vname, 'why': j['skipped']})
       continue
@@ -209,9 +268,13 @@ def run_core(rep, pid, tier, profile, variants, n_quick, n_thorough, salt, repla
     if reported >= 6:
       break
     rp = {'gen_seed': s, 'variant': vname, 'predicate': pred, 'kind': kind, 'detail': detail,
-          'program_text': text, 'observed': j['impl'].get(pred),
+          'program_text': text[0] if isinstance(text, tuple) else text,
+          'original_program_text': G.p_program(prog), 'observed': j['impl'].get(pred),
           'expected_by_reference_evaluator': R.model_rows(prog, pred),
           'how': 'vlib.logica_run.run_pred(program_text, predicate) vs Core/Eval.v eval_query'}
+    if metamorphic:
+      rp['plain_program_outcome'] = str(outcome(prog, baseline[s], pred))[:600] if s in baseline else None
+      rp['variant_outcome'] = str(outcome(prog, j, pred))[:600]
     if rep.violation(key, rp):
       reported += 1
   if not ok and not found:
@@ -232,7 +295,8 @@ def run_core(rep, pid, tier, profile, variants, n_quick, n_thorough, salt, repla
       'cases_skipped_worker_died_or_slow': skipped_cases[:20],
       'feature_histogram': dict(feats),
       'profile': profile,
-      'samples': [{'gen_seed': s, 'variant': v, 'text': t} for (s, v, _, t) in cases[:2]],
+      'samples': [{'gen_seed': s, 'variant': v, 'text': t[0] if isinstance(t, tuple) else t}
+                  for (s, v, _, t) in cases[:3]],
       'weak': bool(evaluated and nonempty * 2 < evaluated),
   })
   return found
@@ -240,6 +304,12 @@ def run_core(rep, pid, tier, profile, variants, n_quick, n_thorough, salt, repla
 
 def accept_key(kind, detail, vname):
   """Stable key of a failure class (matched against known_findings.json)."""
+  if kind == 'variant-changes-outcome':
+    import re
+    msg = re.sub(r'\x1b\[[0-9;]*m', '', detail.split(' | ', 1)[1] if ' | ' in detail else '')
+    msg = re.sub(r'[^A-Za-z ]+', ' ', msg)
+    words = [w for w in msg.split() if len(w) > 2][:6]
+    return 'variant:%s:%s:%s' % (vname, detail.split(' (')[0].replace(' ', ''), ' '.join(words))
   if kind == 'rejected-valid-program':
     msg = detail.split('\x1b')[0][:60]
     import re
